@@ -604,8 +604,8 @@ theorem lookup_table (f : List Nat → β) (locs : List (List Nat)) (p : List Na
 /-- `flat=True`: `tuple(r)` -/
 theorem coreProcess_flat (pyNone : β) (nl : β → β) (cg : Bool) (locs cv acv : List (List Nat)) (r : List β) :
     Gen.coreProcess pyNone nl true cg locs cv acv r = .ok (.flat r) := by
-  simp only [Gen.coreProcess, Gen.Default.coreProcess]
-  rfl
+  simp only [Gen.coreProcess, Gen.Default.coreProcess, Bool.false_eq_true, Bool.true_eq_false, if_false, if_true, Bool.not_false, Bool.not_true, reduceIte, ite_true, ite_false]
+  try rfl
 
 /-- **no cases**: `_unflatten(dict(zip(locs, r)), combo_values)` is the model's `processNested` (no slot is missing,
 so neither Python's `None` default nor the model's placeholder shows) -/
@@ -614,7 +614,7 @@ theorem coreProcess_grid (pyNone : β) (nl : β → β) (s : Sweep) (hg : s.case
     Gen.coreProcess pyNone nl false false s.locs s.comboVals acv (s.locs.map f)
       = .ok (.nested (processNested s (s.locs.map f) ph)) := by
   have hlocs : s.locs = product s.comboVals := locs_grid s hg
-  simp only [Gen.coreProcess, Gen.Default.coreProcess, Bool.false_eq_true, if_false, Bool.not_false, if_true]
+  simp only [Gen.coreProcess, Gen.Default.coreProcess, Bool.false_eq_true, Bool.true_eq_false, if_false, if_true, Bool.not_false, Bool.not_true, reduceIte, ite_true, ite_false]
   first | rw [unflatten_refines _ _ _ hnd] | rw [unflatten_refines_default _ _ _ hnd]
   · simp only [processNested, hg, unflatten_eq]
     congr 2
@@ -649,7 +649,7 @@ theorem coreProcess_cases (pyNone : β) (nl : β → β) (s : Sweep) (rows : Lis
     · exact caseCoords_nodup s vs h
     · exact hnd vs h
   have h0 : (s.locs.map f)[0]? = some (f first) := by rw [hne]; rfl
-  simp only [Gen.coreProcess, Gen.Default.coreProcess, Bool.false_eq_true, if_false, Bool.not_true, h0]
+  simp only [Gen.coreProcess, Gen.Default.coreProcess, Bool.false_eq_true, Bool.true_eq_false, if_false, if_true, Bool.not_false, Bool.not_true, reduceIte, ite_true, ite_false, h0]
   first | rw [unflatten_refines _ _ _ hnd'] | rw [unflatten_refines_default _ _ _ hnd']
   · simp only [processNested, hr, unflatten_eq]
     congr 2
